@@ -96,7 +96,7 @@ class Device:
         else:
             data = line.encode("utf-8") + b"\r\n"
         self.emitted.append((sched.S.now, line, cause))
-        sched.S.emit("dev_line", line=line, cause=cause)
+        sched.S.emit("dev_line", line=line, cause=cause, **({"dev": self.tag} if getattr(self, "tag", None) else {}))
         self._feed(data)
 
     def _feed(self, data: bytes):
@@ -145,7 +145,7 @@ class Device:
         import serial
         if not self.dead:
             self.dead = True
-            sched.S.emit("fault_injected", exc=type(exc or serial.SerialException()).__name__)
+            sched.S.emit("fault_injected", exc=type(exc or serial.SerialException()).__name__, **({"dev": self.tag} if getattr(self, "tag", None) else {}))
             self.port.inject_fault(exc or serial.SerialException("link dropped"))
 
 
